@@ -48,7 +48,7 @@ type c20Case struct {
 	Scripts [][]c20Op `json:"scripts"`
 }
 
-var c20Kinds = []string{"ngap-enc", "ngap-dec", "nas-plain", "protect", "unprotect", "encrypt", "mac", "derive"}
+var c20Kinds = []string{"ngap-enc", "ngap-dec", "nas-plain", "protect", "unprotect", "encrypt", "mac", "derive", "ngap-enc-big", "ngap-dec-big"}
 
 func genC20(t *rapid.T) c20Case {
 	g := rapid.SampledFrom([]int{2, 2, 4, 8, 8, 16, 64}).Draw(t, "goroutines")
@@ -56,6 +56,11 @@ func genC20(t *rapid.T) c20Case {
 	maxOps := 60
 	if g >= 16 {
 		maxOps = 24
+	}
+	longBias := 1 // of 12
+	if rapid.IntRange(0, 3).Draw(t, "long_case") == 0 {
+		longBias = 8
+		maxOps = maxOps / 2
 	}
 	for i := 0; i < g; i++ {
 		n := rapid.IntRange(8, maxOps).Draw(t, fmt.Sprintf("n%d", i))
@@ -68,8 +73,13 @@ func genC20(t *rapid.T) c20Case {
 			if rapid.IntRange(0, 2).Draw(t, "other") == 0 {
 				kind = rapid.SampledFrom(c20Kinds).Draw(t, "kind")
 			}
-			s = append(s, c20Op{Kind: kind, Seed: rapid.Uint64().Draw(t, "seed"), Alg: rapid.IntRange(0, 2).Draw(t, "alg"),
-				Len: rapid.IntRange(1, 200).Draw(t, "len")})
+			// message sizes: mostly signalling-sized; in "long" cases mostly kilobytes (payload containers, NAS-PDUs of
+			// 2..20 KB), so that two goroutines are inside a long operation at the same time
+			ln := rapid.IntRange(1, 200).Draw(t, "len")
+			if rapid.IntRange(0, 11).Draw(t, "len_long") < longBias {
+				ln = rapid.IntRange(2000, 20000).Draw(t, "len_kb")
+			}
+			s = append(s, c20Op{Kind: kind, Seed: rapid.Uint64().Draw(t, "seed"), Alg: rapid.IntRange(0, 2).Draw(t, "alg"), Len: ln})
 		}
 		c.Scripts = append(c.Scripts, s)
 	}
@@ -118,7 +128,11 @@ func pduFor(seed uint64) ngapType.NGAPPDU {
 	}).Example(int(seed % (1 << 30)))
 }
 
-func plainNAS(r *sm) []byte {
+func plainNAS(r *sm, ln int) []byte {
+	if ln > 200 {
+		// a long message: SECURITY MODE COMPLETE with a NAS message container (TLV-E) of ln octets
+		return nasTestpacket.GetSecurityModeComplete(r.bytes(ln))
+	}
 	switch r.next() % 6 {
 	case 0:
 		return nasTestpacket.GetRegistrationComplete(nil)
@@ -161,8 +175,57 @@ func runOp(u *ueState, op c20Op) (res string) {
 			return "decoded-value-differs"
 		}
 		return "ok:" + hex.EncodeToString(rb[:min(len(rb), 16)])
+	case "ngap-enc-big", "ngap-dec-big":
+		// DOWNLINK NAS TRANSPORT whose NAS-PDU has op.Len octets (above 16K the open types are fragmented)
+		var pdu ngapType.NGAPPDU
+		pdu.Present = ngapType.NGAPPDUPresentInitiatingMessage
+		pdu.InitiatingMessage = new(ngapType.InitiatingMessage)
+		im := pdu.InitiatingMessage
+		im.ProcedureCode.Value = ngapType.ProcedureCodeDownlinkNASTransport
+		im.Criticality.Value = ngapType.CriticalityPresentIgnore
+		im.Value.Present = ngapType.InitiatingMessagePresentDownlinkNASTransport
+		im.Value.DownlinkNASTransport = new(ngapType.DownlinkNASTransport)
+		add := func(id int64, set func(*ngapType.DownlinkNASTransportIEs)) {
+			ie := ngapType.DownlinkNASTransportIEs{}
+			ie.Id.Value = id
+			ie.Criticality.Value = ngapType.CriticalityPresentReject
+			set(&ie)
+			im.Value.DownlinkNASTransport.ProtocolIEs.List = append(im.Value.DownlinkNASTransport.ProtocolIEs.List, ie)
+		}
+		add(ngapType.ProtocolIEIDAMFUENGAPID, func(ie *ngapType.DownlinkNASTransportIEs) {
+			ie.Value.Present = ngapType.DownlinkNASTransportIEsPresentAMFUENGAPID
+			ie.Value.AMFUENGAPID = &ngapType.AMFUENGAPID{Value: int64(r.next() % (1 << 40))}
+		})
+		add(ngapType.ProtocolIEIDRANUENGAPID, func(ie *ngapType.DownlinkNASTransportIEs) {
+			ie.Value.Present = ngapType.DownlinkNASTransportIEsPresentRANUENGAPID
+			ie.Value.RANUENGAPID = &ngapType.RANUENGAPID{Value: int64(r.next() % (1 << 32))}
+		})
+		add(ngapType.ProtocolIEIDNASPDU, func(ie *ngapType.DownlinkNASTransportIEs) {
+			ie.Value.Present = ngapType.DownlinkNASTransportIEsPresentNASPDU
+			ie.Value.NASPDU = &ngapType.NASPDU{Value: r.bytes(op.Len)}
+		})
+		rb, _, rerr := refper.Encode(pdu, gen.PDUTag)
+		if rerr != nil {
+			return "skip"
+		}
+		if op.Kind == "ngap-enc-big" {
+			b, err := ngap.Encoder(pdu)
+			if err != nil || !bytes.Equal(b, rb) {
+				return fmt.Sprintf("WRONG-ENCODING of a DOWNLINK NAS TRANSPORT with a %d-octet NAS-PDU (err %v): differs from the canonical encoding at octet %d", op.Len, err, firstDiff(b, rb))
+			}
+			return "ok"
+		}
+		d, derr := ngap.Decoder(append([]byte{}, rb...))
+		if derr != nil {
+			return "decerr:" + derr.Error()
+		}
+		b2, _, e2 := refper.Encode(*d, gen.PDUTag)
+		if e2 != nil || !bytes.Equal(b2, rb) {
+			return "decoded-value-differs"
+		}
+		return "ok"
 	case "nas-plain":
-		p := plainNAS(r)
+		p := plainNAS(r, op.Len)
 		m := nas.NewMessage()
 		if err := m.PlainNasDecode(&p); err != nil {
 			return "err:" + err.Error()
@@ -172,7 +235,7 @@ func runOp(u *ueState, op c20Op) (res string) {
 	case "protect":
 		u.ue.CipheringAlg = uint8(op.Alg)
 		u.ue.IntegrityAlg = uint8(1 + op.Seed%2)
-		p := plainNAS(r)
+		p := plainNAS(r, op.Len)
 		b, err := tglib.EncodeNasPduWithSecurity(u.ue, p, nas.SecurityHeaderTypeIntegrityProtectedAndCiphered, true, false)
 		return fmt.Sprintf("%x|%v|%d", b, err, u.ue.ULCount.Get())
 	case "unprotect":
@@ -180,6 +243,9 @@ func runOp(u *ueState, op c20Op) (res string) {
 		u.ue.CipheringAlg = uint8(op.Alg)
 		u.ue.IntegrityAlg = uint8(1 + op.Seed%2)
 		p := nasTestpacket.GetConfigurationUpdateComplete() // any plain 5GMM message serves as payload
+		if op.Len > 200 {
+			p = plainNAS(r, op.Len)
+		}
 		u.dl++
 		payload := append([]byte{}, p...)
 		if err := security.NASEncrypt(u.ue.CipheringAlg, u.ue.KnasEnc, u.dl, security.Bearer3GPP, security.DirectionDownlink, payload); err != nil {
@@ -247,6 +313,15 @@ func runOp(u *ueState, op c20Op) (res string) {
 		return fmt.Sprintf("%x|%x|%x|%x", res, ue.Kamf, ue.KnasEnc, ue.KnasInt)
 	}
 	panic("unknown op " + op.Kind)
+}
+
+func firstDiff(a, b []byte) int {
+	for i := 0; i < len(a) && i < len(b); i++ {
+		if a[i] != b[i] {
+			return i
+		}
+	}
+	return min(len(a), len(b))
 }
 
 var raceRe = regexp.MustCompile(`(?m)^\s+((?:free5gclib|tglib|stgutg)[^\s(]*)\(`)
